@@ -33,7 +33,13 @@ func NewGeometryCollection(geoms []Geometry) GeometryCollection {
 	}
 	geoms = append([]Geometry(nil), geoms...)
 	for i := range geoms {
-		geoms[i] = geoms[i].ForceCoordinatesType(ctype)
+		// Geometries are immutable, so children that already have the
+		// right coordinates type can be used as they are. Copying them
+		// regardless makes the cost of building nested collections
+		// quadratic in the nesting depth.
+		if geoms[i].CoordinatesType() != ctype {
+			geoms[i] = geoms[i].ForceCoordinatesType(ctype)
+		}
 	}
 	return GeometryCollection{geoms, ctype}
 }
